@@ -36,6 +36,12 @@ pub fn encode_all(src: &str) -> Option<String> {
 }
 
 pub fn run_tx3c(src: &str) -> Result<Vec<u8>, String> {
+    run_tx3c_with(src, &[], &[])
+}
+
+/// `extra` = further command-line arguments; `files` = (placeholder, content) pairs written next to the
+/// source, whose path replaces the placeholder in the arguments (env files of profiles)
+pub fn run_tx3c_with(src: &str, extra: &[String], files: &[(String, String)]) -> Result<Vec<u8>, String> {
     let n = SERIAL.fetch_add(1, Ordering::SeqCst);
     let dir = format!("{}/.work", crate::runner::verif_dir());
     let _ = std::fs::create_dir_all(&dir);
@@ -43,8 +49,19 @@ pub fn run_tx3c(src: &str) -> Result<Vec<u8>, String> {
     let srcp = format!("{}.tx3", base);
     let outp = format!("{}.tii", base);
     std::fs::write(&srcp, src).map_err(|e| e.to_string())?;
+    let mut extra: Vec<String> = extra.to_vec();
+    let mut written = vec![];
+    for (k, (placeholder, content)) in files.iter().enumerate() {
+        let fp = format!("{}.{}.env", base, k);
+        std::fs::write(&fp, content).map_err(|e| e.to_string())?;
+        for a in extra.iter_mut() {
+            *a = a.replace(placeholder.as_str(), &fp);
+        }
+        written.push(fp);
+    }
     let res = std::process::Command::new(tx3c_bin())
         .args(["build", &srcp, "--emit", "tii", "-o", &outp])
+        .args(&extra)
         .stdout(std::process::Stdio::null())
         .stderr(std::process::Stdio::piped())
         .output();
@@ -55,7 +72,83 @@ pub fn run_tx3c(src: &str) -> Result<Vec<u8>, String> {
     };
     let _ = std::fs::remove_file(&srcp);
     let _ = std::fs::remove_file(&outp);
+    for f in written {
+        let _ = std::fs::remove_file(f);
+    }
     out
+}
+
+/// The command line is part of what a build is a function of: protocol metadata, forced profiles and
+/// per-profile env files (names in several spellings, the same profile named twice, env files that set the
+/// program's env fields and parties). Five runs of one command line must write one byte string.
+pub fn check_command_line(tape: &[u16], rc: &mut RCase) -> Result<(), Failure> {
+    let mut t = Tape::new(tape);
+    let mut feat = Feat::core();
+    feat.withdrawals = true;
+    let case = Gen::new(&mut t, feat).generate();
+    let (plain, _) = super::render_pair(&case, &mut t);
+    if encode_all(&plain).is_none() {
+        rc.label("does_not_lower(not judged)");
+        return Ok(());
+    }
+    const NAMES: [&str; 7] = ["preview", "Preview", "PREVIEW", "mainnet", "Mainnet", "local", "dev"];
+    let mut args: Vec<String> = vec![];
+    let mut files: Vec<(String, String)> = vec![];
+    if t.flag() {
+        args.extend(["--protocol-name".to_string(), ["demo", "Demo Protocol", "é"][t.pick(3)].to_string()]);
+    }
+    if t.flag() {
+        args.extend(["--protocol-version".to_string(), "1.2.3".to_string()]);
+    }
+    let n_prof = t.pick(4);
+    for _ in 0..n_prof {
+        args.extend(["--profile".to_string(), NAMES[t.pick(NAMES.len())].to_string()]);
+    }
+    let n_env = t.pick(3);
+    for k in 0..n_env {
+        let mut content = String::new();
+        for (name, _) in case.prog.env.iter() {
+            if t.chance(2, 3) {
+                content.push_str(&format!("{}={}\n", if t.flag() { name.to_uppercase() } else { name.clone() }, t.pick(1000)));
+            }
+        }
+        for p in case.prog.parties.iter() {
+            if t.chance(1, 2) {
+                content.push_str(&format!("{}=addr_test1vq{}\n", p.to_uppercase(), t.pick(1000)));
+            }
+        }
+        let placeholder = format!("@ENVFILE{}@", k);
+        args.extend(["--profile-env-file".to_string(), format!("{}:{}", NAMES[t.pick(NAMES.len())], placeholder)]);
+        files.push((placeholder, content));
+    }
+    let rendered = || json!({"source": plain, "command_line": args, "env_files": files.iter().map(|f| f.1.clone()).collect::<Vec<_>>()});
+    let mut first: Option<Vec<u8>> = None;
+    for i in 0..5 {
+        match run_tx3c_with(&plain, &args, &files) {
+            Err(e) => {
+                // a command line the tool refuses is refused every time; not a determinism question
+                rc.label("tx3c_refused_command_line");
+                let _ = (i, e);
+                return Ok(());
+            }
+            Ok(bytes) => match &first {
+                None => first = Some(bytes),
+                Some(prev) => {
+                    if *prev != bytes {
+                        return Err(Failure::new(
+                            "tii_file_differs_between_runs",
+                            format!("run {} of the same command line wrote {} bytes, the first run {} bytes (or other content)", i + 1, bytes.len(), prev.len()),
+                            rendered(),
+                        ));
+                    }
+                }
+            },
+        }
+    }
+    rc.label("command_line_judged");
+    let lowered: std::collections::BTreeSet<String> = args.iter().map(|a| a.to_lowercase()).collect();
+    rc.record(hash64(&format!("{}{:?}{:?}", plain, args, files)), n_prof + n_env >= 2 || lowered.len() < args.len(), rendered);
+    Ok(())
 }
 
 pub fn judge(src: &str, origin: &str, with_processes: bool, rc: &mut RCase) -> Result<bool, Failure> {
@@ -130,7 +223,7 @@ pub fn run(tier: Tier, seed: u64) -> Report {
     let mut r = Report::new("C18", tier, seed);
     r.rule = "every repository example that lowers and generated programs weighted towards cardano:: directives with >=2 \
               fields; each encoded 20 times in one process; a sample additionally in 3 fresh child processes and through 3 \
-              runs of the built tx3c (TII file bytes). Oracle: one byte string over all repetitions. distinct = hash(source); \
+              runs of the built tx3c (TII file bytes). Phase tx3c_command_lines: generated programs x generated command lines (protocol metadata, forced profiles and per-profile env files, profile names in several spellings), 5 runs each. Oracle: one byte string over all repetitions. distinct = hash(source); \
               non-trivial = a directive with >=2 fields or >=2 transactions"
         .into();
     r.assumptions = vec!["processes are children of the same binary on this machine".into()];
@@ -143,6 +236,7 @@ pub fn run(tier: Tier, seed: u64) -> Report {
     });
     r.explore("generated_in_process", tier.pick(6_000, 200_000), 500, &|t, rc| check_case(t, rc, false));
     r.explore("generated_cross_process", tier.pick(120, 4_000), 500, &|t, rc| check_case(t, rc, true));
+    r.explore("tx3c_command_lines", tier.pick(400, 12_000), 500, &|t, rc| check_command_line(t, rc));
     r
 }
 
@@ -153,6 +247,8 @@ pub fn replay(phase: &str, tape: &[u16], seed: u64) -> Report {
         let ex = examples();
         let i = tape[3] as usize;
         r.enumerate(phase, 1, &|_, rc| judge(&ex[i].1, &ex[i].0, true, rc).map(|_| ()));
+    } else if phase == "tx3c_command_lines" {
+        r.explore_list(phase, &[tape.to_vec()], &|t, rc| check_command_line(t, rc));
     } else {
         r.explore_list(phase, &[tape.to_vec()], &|t, rc| check_case(t, rc, true));
     }
